@@ -60,7 +60,8 @@ Proof.
   unfold trc_contains. rewrite C'. cbn [andb].
   destruct H as [H|(B & G & g & F & Cg & V)].
   - now rewrite (verify_chain_trc_spec _ _ _ H).
-  - rewrite F, (verify_chain_trc_spec _ _ _ V). unfold in_grace. rewrite B. cbn [negb andb].
+  - rewrite F, (verify_chain_trc_spec _ _ _ V). apply contains_iff in Cg. rewrite Cg.
+    unfold in_grace. rewrite B. cbn [negb andb].
     assert (K : contains (t_nb t) (grace_end t) now = true) by (apply contains_iff; lia).
     rewrite K. apply orb_true_r.
 Qed.
@@ -73,6 +74,7 @@ Record accepted (ts : list trc) (r : request) (now : Z) (a c : cert) : Prop := {
   acc_version : r_version r = 1;
   acc_single : r_nsigners r = 1;
   acc_signer_is_as : r_sid r = c_id a;
+  acc_sid_named : r_sid r <> 0;
   acc_client : client_chain_ok ts [a; c] now = true;
   acc_data : r_type_data r = true;
   acc_digest : r_digest_ok r = true;
@@ -100,6 +102,7 @@ Proof.
   - intros (a & c & A). destruct A. rewrite acc_parse0, acc_chain0.
     destruct acc_sig0 as [S1 S2]. destruct acc_csr_sig0 as [Q1 Q2].
     apply N.eqb_neq in S2, Q2. apply N.eqb_eq in S1, Q1.
+    assert (Nz := acc_sid_named0). apply N.eqb_neq in Nz. rewrite Nz.
     rewrite acc_version0, acc_single0, acc_signer_is_as0, acc_client0, acc_data0, acc_digest0,
       S1, S2, acc_csr0, acc_ia0, Q1, Q2, !N.eqb_refl. reflexivity.
 Qed.
@@ -119,6 +122,7 @@ Proof.
   apply N.eqb_neq in S2, Q2. apply N.eqb_eq in S1, Q1.
   rewrite Q1, Q2. cbn [negb andb]. rewrite andb_true_r.
   apply existsb_exists. exists a. split; auto. apply existsb_exists. exists c. split; auto.
+  assert (Nz := acc_sid_named0). apply N.eqb_neq in Nz. rewrite Nz.
   rewrite acc_signer_is_as0, N.eqb_refl, (client_chain_spec _ _ _ acc_client0), acc_digest0, S1, S2, acc_ia0.
   reflexivity.
 Qed.
